@@ -89,7 +89,8 @@ type hdOp struct {
 	Key int    `json:"key,omitempty"`
 
 	// deliver
-	Subj int `json:"subj,omitempty"` // index into the pending list
+	Subj int    `json:"subj,omitempty"` // index into the pending list
+	Sk   string `json:"sk,omitempty"`   // deliversubj: kind of the subject (room, backendroom, session, user)
 	// raw
 	Raw string `json:"raw,omitempty"`
 }
@@ -1026,6 +1027,25 @@ func hdRunCase(t *testing.T, c *hdCase) (string, *hdRun) {
 	}
 	for i := 0; i < len(ops); i++ {
 		o := &ops[i]
+		if o.K == "drain" {
+			// deliver every queued publication in publication order, one step each
+			if sys.events.pending() > 0 {
+				rest := append([]hdOp{{K: "deliver", Subj: 0}, {K: "drain"}}, ops[i+1:]...)
+				ops = append(ops[:i+1:i+1], rest...)
+			}
+			continue
+		}
+		if o.K == "deliversubj" {
+			prefix := map[string]string{"room": "room.", "backendroom": "backend.room.", "session": "session.", "user": "user."}[o.Sk]
+			for j, subj := range sys.events.pendingSubjects() {
+				if strings.HasPrefix(subj, prefix) {
+					rest := append([]hdOp{{K: "deliver", Subj: j}}, ops[i+1:]...)
+					ops = append(ops[:i+1:i+1], rest...)
+					break
+				}
+			}
+			continue
+		}
 		if o.K == "mcuflush" {
 			// complete every pending creation, oldest first, one step each
 			if sys.mcu.firstPending(0) != 0 {
